@@ -99,6 +99,7 @@ func (p ParallelBatchParser[T]) processAsync(batches []string, work func(int, st
 		go func(batchIndex int, batchText string) {
 			defer wg.Done()
 			result := work(batchIndex, batchText)
+			verifBeforeSend(batchIndex)
 			resultChannel <- result
 		}(i, b)
 	}
@@ -113,6 +114,7 @@ func (p ParallelBatchParser[T]) processAsync(batches []string, work func(int, st
 	allResults := make([]batchResult[T], len(batches))
 	for result := range resultChannel {
 		allResults[result.index] = result
+		verifAfterCollect(result.index)
 	}
 
 	return allResults
